@@ -491,3 +491,43 @@ package raft
 //@   ensures [C20.identity-reply] istype(old(rpc.req), *identityReq) ==> istype(rpc.resp, *identityResp) && ((as(rpc.resp, *identityResp).result == success) == (r.cid == as(old(rpc.req), *identityReq).cid && r.nid == as(old(rpc.req), *identityReq).nid))
 //@   ensures [C20.identity-no-handler] istype(old(rpc.req), *identityReq) ==> r.term == old(r.term) && r.votedFor == old(r.votedFor) && r.state == old(r.state) && r.leader == old(r.leader) && r.commitIndex == old(r.commitIndex) && r.lastLogIndex == old(r.lastLogIndex)
 //@   ensures [C17.identity-timer] istype(old(rpc.req), *identityReq) ==> result0 == (as(old(rpc.req), *identityReq).src == r.leader)
+
+// ---------------------------------------------------------------------------
+// connection pools (C20): conn.gcid/gnid = the identity the peer confirmed in the handshake
+
+//@ ghost field conn.gcid uint64
+//@ ghost field conn.gnid uint64
+//@ ghost func tIsZero(time.Time) bool
+
+//@ func (time.Time).IsZero params(t)
+//@   trusted
+//@   ensures result0 == tIsZero(t)
+
+//@ func (*resolver).lookupID
+//@   trusted
+
+//@ func dial
+//@   trusted
+//@   ensures result1 == nil ==> result0 != nil && isfresh(result0) && result0.rwc != nil
+//@   ensures result1 != nil ==> result0 == nil
+
+// network exchange (T-go): after a successful identity handshake the peer is (cid, nid)
+//@ func (*conn).doRPC
+//@   trusted
+//@   modifies c.gcid, c.gnid, allof(resp)
+//@   ensures result0 == nil && istype(req, *identityReq) && istype(resp, *identityResp) && as(resp, *identityResp).result == success ==> c.gcid == as(req, *identityReq).cid && c.gnid == as(req, *identityReq).nid
+//@   ensures !istype(req, *identityReq) ==> c.gcid == old(c.gcid) && c.gnid == old(c.gnid)
+
+//@ pure PoolInv(pool *connPool) bool = forallr(j, 0, len(pool.conns), pool.conns[j] != nil ==> pool.conns[j].gcid == pool.cid && pool.conns[j].gnid == pool.nid && pool.conns[j].rwc != nil)
+
+//@ func (*connPool).getConn
+//@   requires PoolInv(pool) && pool.resolver != nil && !tIsZero(deadline)
+//@   modifies pool.conns, contents(pool.conns)
+//@   ensures [C20.conn-handshake] result1 == nil ==> result0 != nil && result0.gcid == pool.cid && result0.gnid == pool.nid
+//@   ensures [C20.conn-or-error] result1 != nil ==> result0 == nil
+//@   ensures [C20.pool-inv] PoolInv(pool)
+
+//@ func (*connPool).returnConn
+//@   requires PoolInv(pool) && c.gcid == pool.cid && c.gnid == pool.nid && c.rwc != nil
+//@   modifies pool.conns, elems(*conn)
+//@   ensures [C20.pool-inv] PoolInv(pool)
